@@ -25,6 +25,7 @@ def run(ck, fb):
     r13n(ck, fb)
     r13o(ck, fb)
     r13p(ck, fb)
+    r13q(ck, fb)
 
 
 def _run0(ck, fb):
@@ -684,3 +685,54 @@ def r13p(ck, fb, R='R13p'):
             ck.require(ok, R, 'delay_beat_notify:only-without-pending-change', s0.where(),
                        'a heartbeat copy is queued although a change for the same instance may be pending: the copy (healthy, older) is flushed after the change',
                        'queued only when instances_map has no entry for the key')
+
+
+def r13q(ck, fb, R='R13q'):
+    ck.rule(R, '"an instance whose heartbeats keep arriving is never marked unhealthy or removed" - the heartbeat has to reach the instance it is sent '
+               'for: BeatRequest::convert_to_instance addresses the beat to the group the request names. With a non-empty `groupName` parameter and '
+               'a beat JSON whose serviceName does not itself name a group (no "@@"), every path that answers Ok assigns the parameter to the '
+               'instance\'s group_name - whether or not the JSON carries a (bare) service name; walked under both values of "the JSON has a name". '
+               'Otherwise `beat={"serviceName":"foo"}&groupName=G1` keeps a phantom instance alive in DEFAULT_GROUP while the instance in G1 '
+               'expires although its client beats')
+    from rn import walk
+    from rn.facts import pl_proj, pl_local, pl_fields
+    b = ck.body('rnacos::openapi::naming::model::BeatRequest::convert_to_instance', R)
+    if not b:
+        return
+    tg = Taint(b, place_src=lambda p: (not isinstance(p, int)) and pl_local(p) == 1 and pl_fields(p)[:1] == ['group_name'])
+    tj = Taint(b, place_src=lambda p: (not isinstance(p, int)) and 'service_name' in pl_fields(p) and pl_local(p) != 1)
+    sinks = {bb for (o, f, bb, st) in b.field_writes() if f == 'group_name' and o.endswith('naming::model::Instance') and
+             any(tg.op_tainted(x) for x in rv_operands(st['rv']))}
+    ck.floor(R, 'assignments of the request group to the instance', len(sinks), 1)
+    errs = {i for (i, j, st) in b.aggregates(r'^std::result::Result$', 'Err')} | {s0.bb for s0 in b.calls(r'FromResidual<.*>>::from_residual$')}
+
+    def classify(d, term):
+        if d['k'] == 'discr':
+            pd = cfg.describe_operand(b, {'cp': d['pl']})
+            if pd['k'] == 'place' and pd['fields'][-1:] == ['group_name'] and pd['root']['k'] == 'arg' and pd['root']['l'] == 1:
+                return ('variant', 'req_group')
+        if d['k'] == 'call':
+            nm = cfg.callee_name(d['term']) or ''
+            args = d['term'].get('args') or []
+            if nm.endswith('::is_empty') and args and tg.op_tainted(args[0]):
+                return ('bool', 'req_group_empty')
+            if re.search(r'::contains$', nm) and args and tj.op_tainted(args[0]):
+                return ('bool', 'json_names_group')
+            # the same test inside a closure: name.as_ref().map(|e| e.contains("@@")).unwrap_or(false) / is_some_and(..)
+            if args and (tc.op_tainted(args[0]) or has_contains_closure(d['term'])) and any(tj.op_tainted(a) for a in args):
+                return ('bool', 'json_names_group')
+            if nm.endswith('Option::<T>::is_none') and args and tj.op_tainted(args[0]) and not tg.op_tainted(args[0]):
+                return ('bool', 'json_name_absent')
+            if nm.endswith('Option::<T>::is_some') and args and tj.op_tainted(args[0]) and not tg.op_tainted(args[0]):
+                return ('bool', 'json_name_present')
+        return None
+    def has_contains_closure(term):
+        return any(any(x.calls(r'::contains$') for x in util.region(fb, cb, 1)) for cb in util.closures_passed(fb, b, term))
+    tc = Taint(b, call_src=has_contains_closure)
+    for absent in (True, False):
+        env = {'req_group': 'Some', 'req_group_empty': False, 'json_names_group': False, 'json_name_absent': absent, 'json_name_present': not absent}
+        esc = walk.escapes_under(b, classify, env, sinks | errs)
+        ck.require(not esc, R, 'convert_to_instance:groupName-applied:json-name-%s' % ('absent' if absent else 'bare'), b.where(esc[0]) if esc else b.where(),
+                   'a heartbeat with a non-empty groupName parameter can be converted without that group being applied when the beat JSON %s: the beat '
+                   'refreshes (or registers) an instance of another group and the instance it was sent for expires although its client keeps beating'
+                   % ('has no serviceName' if absent else 'carries a bare serviceName'), 'the request group is applied on every Ok path')
